@@ -13,7 +13,9 @@ RULE = ("file sets: all subsets of size <= 2 (3 in thorough) of a 16-name univer
         "directory. Queries: every stored name in all spellings {as is, upper, lower, swapcase} x {/, \\, mixed}, non-normalised spellings "
         "(./x, a//b, a/../a/x), absent names, folder names. Folders: '' and every folder prefix in the same spellings, with and without "
         "trailing separator, partial names (mat for materials) and absent ones. Chains: up to 4 members drawn from (backend, set, prefix), "
-        "all orders of the chosen members (built with add_sys and random priority flags). A case = (set, backend/chain, query or folder); "
+        "all orders of the chosen members (built with add_sys and random priority flags); operation histories on ONE chain object "
+        "(add_sys with both priorities, systems.pop(i), chain[q] / q in chain / walk_folder interleaved, with the pattern ask-missing, "
+        "append a member that has it, ask again), compared step by step with a state-machine model. A case = (set, backend/chain, query or folder); "
         "non-trivial = the set has >= 2 names or the spelling differs from the stored one; distinct by content.")
 TRUSTED = ["model: C19.lookupV/Z/P, walkV/Z/P, chainLookup, chainWalk (lean/Srctools/Model/C19.lean) re-state filesys.py by hand over "
            "Python-dict semantics; the folder matching of walk_folder is regenerated from the source by tools/gen_fswalk.py",
@@ -966,7 +968,10 @@ LEVEL_TEXT = ("Theorems proved in Lean over Python-dict semantics for every file
               "and VPK lookups return the same file for every query that is a case/slash spelling of a normalised name), C19_agree_raw / "
               "C19_agree_all (the directory backend finds every exactly-spelled stored name, and all four return the same file), C19_walk_zip / "
               "C19_walk_virtual / C19_walk_vpk (after the fixes walk_folder lists exactly the stored names inside the folder, '' meaning all), "
-              "C19_walk_sound_* (every listed name looks up to that file), C19_chain / C19_chain_first / C19_priority (a chain returns the first "
+              "C19_walk_sound_* (every listed name looks up to that file), C19_chain_walk / C19_chain_walk_sound (a chain walk lists exactly each "
+              "member's names inside prefix/d relative to the prefix, under PrefixExact, and each listed name looks up through the chain to "
+              "that member's content unless shadowed by an earlier member), C19_history / C19_history_append (a chain object has no memory "
+              "across add_sys / systems.pop / queries), C19_chain / C19_chain_first / C19_priority (a chain returns the first "
               "member that has prefix/name; priority insertion wins), C19_dedup (the de-duplicated walk is a sub-list with no two paths equal "
               "up to case and represents every path), C19_walk_bugs (the three original walk defects as model facts). C19_gen_ok re-checks on "
               "every run that the source's three walk_folder methods have the fixed shape. Model tied to the code by differential runs on file "
